@@ -85,6 +85,24 @@ Theorem C18_reparse_prose_around_partial : forall o ind exs p0 p1 s items off li
                  parts_of items = map (shift (length p0)) (parts_of items').
 Proof. exact reparse_prose_around. Qed.
 Print Assumptions C18_reparse_prose_around_partial.
+(* prose ANYWHERE (sections of prose followed by a run of examples at one indentation, closing prose), provided every run that
+   is followed by another run ends with an example that has a want: the display is the examples' lines, and parsing it again
+   yields the same parts up to the lines they start on (executable lines, prompted lines, wants, directives, modes).
+   Still outside: a want-less example directly followed by prose and then more examples -- there the re-parse merges two
+   chunks, and only a compositional ast oracle keeps their statements apart (tested on the implementation) *)
+Theorem C18_reparse_sections_partial : forall o secs pend s items off lineno,
+  AstInRange o -> secs <> [] ->
+  Forall (fun sec => s_exs sec <> [] /\ Forall (fun e => ex_ind e = s_ind sec) (s_exs sec)) secs ->
+  WantEndsS secs ->
+  Chain (o_bal o) TEXT O (doc_blocks secs pend) ->
+  splitlines (normalize_docstring s) = concat (map block_lines (doc_blocks secs pend)) ->
+  Forall LineOK (exs_lines (map ex0 (all_exs secs))) ->
+  parse o s = Parsed items ->
+  format_src (parts_of items) false true off true false lineno = join_nl (exs_lines (map ex0 (all_exs secs))) /\
+  exists items', parse o (format_src (parts_of items) false true off true false lineno) = Parsed items' /\
+                 map unoffset (parts_of items) = map unoffset (parts_of items').
+Proof. exact reparse_sections. Qed.
+Print Assumptions C18_reparse_sections_partial.
 (* grouping and packaging look at labels and de-indented lines only (what the re-parse rests on) *)
 Theorem C18_grouping_ignores_text_of_lines : forall g ll,
   group_lines (map (on_snd g) ll) = res_map (map (chunk_map g)) (group_lines ll).
